@@ -229,7 +229,21 @@ func newJSONReader(data []byte) (*jsonReader, error) {
 		return nil, err
 	}
 	r.value = append(r.value, v)
+	if err := r.check(); err != nil {
+		return nil, err
+	}
 	return r, nil
+}
+
+// check verifies that the current element, if any, is a JSON object.
+func (j *jsonReader) check() error {
+	if len(j.value) == 0 {
+		return nil
+	}
+	if _, ok := j.value[0].(map[string]any); !ok {
+		return Errorf("Invalid TTLV element: expected a JSON object")
+	}
+	return nil
 }
 
 // Next implements reader.
@@ -239,7 +253,7 @@ func (j *jsonReader) Next() error {
 	}
 	j.value = j.value[1:]
 	j.current = nil
-	return nil
+	return j.check()
 }
 
 func (j *jsonReader) getMap() map[string]any {
@@ -250,7 +264,7 @@ func (j *jsonReader) getMap() map[string]any {
 	if j.current != nil {
 		return j.current
 	}
-	j.current = j.value[0].(map[string]any)
+	j.current, _ = j.value[0].(map[string]any)
 	return j.current
 }
 
@@ -264,8 +278,7 @@ func (j *jsonReader) Type() Type {
 	if ty, ok := typeFromName(typ); ok {
 		return ty
 	}
-	//TODO: return error
-	panic("Invalid type")
+	return typeInvalid
 }
 
 // Tag implements reader.
@@ -392,6 +405,9 @@ func (j *jsonReader) BigInteger(tag int) (*big.Int, error) {
 		bytes, err := hex.DecodeString(val[2:])
 		if err != nil {
 			return nil, err
+		}
+		if len(bytes) == 0 {
+			return nil, Errorf("invalid big integer value %q", val)
 		}
 		return bytesToBigInt(bytes), j.Next()
 	default:
@@ -550,7 +566,11 @@ func (j *jsonReader) Struct(tag int, f func(reader) error) error {
 	if !ok {
 		return Errorf("Invalid structure data layout")
 	}
-	if err := f(&jsonReader{value: st}); err != nil {
+	sub := &jsonReader{value: st}
+	if err := sub.check(); err != nil {
+		return err
+	}
+	if err := f(sub); err != nil {
 		return err
 	}
 	return j.Next()
